@@ -21,6 +21,12 @@ from .index import Program, FuncInfo, ClassInfo, ModuleInfo
 
 T = Tuple
 EMPTY: FrozenSet = frozenset()
+
+
+def S(ts):
+    """Deterministic iteration order over a set of type terms."""
+    return sorted(ts, key=repr)
+
 NONE_T = ("none",)
 
 SEQ_GENERICS = {"List", "Deque", "Sequence", "Iterable", "Iterator", "Generator", "Set", "FrozenSet",
@@ -64,6 +70,7 @@ class Types:
         self.p = prog
         self._memo: Dict[int, FrozenSet] = {}
         self._busy = set()
+        self._cuts = 0
         self._ret_memo: Dict[str, FrozenSet] = {}
         self._attr_memo: Dict[Tuple[str, str], FrozenSet] = {}
         self._local_memo: Dict[Tuple[str, str], FrozenSet] = {}
@@ -181,7 +188,7 @@ class Types:
                 return frozenset([("tuple", tuple(self._ann(a, m, cls, func, recv) for a in args))])
             if bname == "Type":
                 out = set()
-                for t in self._ann(args[0], m, cls, func, recv):
+                for t in S(self._ann(args[0], m, cls, func, recv)):
                     if t[0] == "inst":
                         out.add(("clsobj", t[1]))
                 return frozenset(out)
@@ -226,18 +233,24 @@ class Types:
     def type_of(self, e: ast.expr, fi: Optional[FuncInfo], m: Optional[ModuleInfo] = None) -> FrozenSet:
         k = id(e)
         if k in self._memo:
-            return self._memo[k]
+            return self._memo[k][1]
         if k in self._busy:
+            self._cuts += 1
             return EMPTY
         self._busy.add(k)
+        c0 = self._cuts
         try:
             try:
                 r = self._type_of(e, fi, m or (fi.module if fi else None))
             except RecursionError:
+                self._cuts += 1
                 r = EMPTY
         finally:
             self._busy.discard(k)
-        self._memo[k] = r
+        # a result computed while a cycle was cut below us is only provisional: keep it out of the memo unless we
+        # are the outermost query (then it is the best deterministic answer we have)
+        if self._cuts == c0 or not self._busy:
+            self._memo[k] = (e, r)     # holding `e` keeps id(e) from being reused by a later (synthetic) node
         return r
 
     def _const_type(self, v) -> FrozenSet:
@@ -247,7 +260,7 @@ class Types:
 
     def _elem(self, ts: FrozenSet) -> FrozenSet:
         out = set()
-        for t in ts:
+        for t in S(ts):
             if t[0] == "seq":
                 out |= t[1]
             elif t[0] == "tuple":
@@ -311,13 +324,13 @@ class Types:
         if isinstance(e, ast.Attribute):
             out = set()
             base = self.type_of(e.value, fi, m)
-            for t in base:
+            for t in S(base):
                 out |= self.attr_type(t, e.attr, fi)
             return frozenset(out)
         if isinstance(e, ast.Subscript):
             base = self.type_of(e.value, fi, m)
             out = set()
-            for t in base:
+            for t in S(base):
                 if t[0] == "seq":
                     if isinstance(e.slice, ast.Slice):
                         out.add(t)
@@ -447,6 +460,7 @@ class Types:
         if key in self._local_memo:
             return self._local_memo[key]
         if ("busy",) + key in self._busy:
+            self._cuts += 1
             return EMPTY
         binds = self.local_bindings(fi, name)
         if not binds:
@@ -460,6 +474,7 @@ class Types:
                 return r
             return None
         self._busy.add(("busy",) + key)
+        c0 = self._cuts
         try:
             out = set()
             m = fi.module
@@ -476,7 +491,7 @@ class Types:
                     out |= self.type_of(b.value, fi, m)
                 elif kind == "except":
                     if b.type is not None:
-                        for t in self.type_of(b.type, fi, m):
+                        for t in S(self.type_of(b.type, fi, m)):
                             if t[0] == "clsobj":
                                 out.add(("inst", t[1], ()))
                             elif t[0] == "extobj":
@@ -495,7 +510,7 @@ class Types:
                         vt = self._enter_type(vt, fi)
                     if idx is not None:
                         sel = set()
-                        for t in vt:
+                        for t in S(vt):
                             if t[0] == "tuple" and idx < len(t[1]):
                                 sel |= t[1][idx]
                             elif t[0] == "seq":
@@ -505,12 +520,13 @@ class Types:
             r = frozenset(out)
         finally:
             self._busy.discard(("busy",) + key)
-        self._local_memo[key] = r
+        if self._cuts == c0 or not self._busy:
+            self._local_memo[key] = r
         return r
 
     def _enter_type(self, vt, fi) -> FrozenSet:
         out = set()
-        for t in vt:
+        for t in S(vt):
             if t[0] == "inst":
                 c = self.p.classes.get(t[1])
                 f = c.lookup("__enter__") if c else None
@@ -612,7 +628,12 @@ class Types:
             key = (t, real)
             if key in self._attr_memo:
                 return self._attr_memo[key]
-            self._attr_memo[key] = EMPTY
+            bk = ("attr",) + key
+            if bk in self._busy:
+                self._cuts += 1
+                return EMPTY
+            self._busy.add(bk)
+            c0 = self._cuts
             out = set()
             f = c.lookup(attr)
             if f is not None:
@@ -644,7 +665,9 @@ class Types:
                             if v is not None:
                                 out |= self.type_of(v, sf)
             r = frozenset(out)
-            self._attr_memo[key] = r
+            self._busy.discard(bk)
+            if self._cuts == c0 or not self._busy:
+                self._attr_memo[key] = r
             return r
         if t[0] == "super":
             c = self.p.classes.get(t[1])
@@ -699,7 +722,12 @@ class Types:
         key = self.fkey(f) + "|" + repr(recv if recv and len(recv) > 2 and recv[2] else None)
         if key in self._ret_memo:
             return self._ret_memo[key]
-        self._ret_memo[key] = EMPTY
+        bk = ("ret", key)
+        if bk in self._busy:
+            self._cuts += 1
+            return EMPTY
+        self._busy.add(bk)
+        c0 = self._cuts
         out = set()
         has_yield = any(isinstance(n, (ast.Yield, ast.YieldFrom)) for n in self.nodes_in(f))
         if has_yield:
@@ -730,7 +758,9 @@ class Types:
             else:
                 out |= inferred
         r = frozenset(out)
-        self._ret_memo[key] = r
+        self._busy.discard(bk)
+        if self._cuts == c0 or not self._busy:
+            self._ret_memo[key] = r
         return r
 
     def _call_type(self, e: ast.Call, fi, m) -> FrozenSet:
@@ -740,7 +770,7 @@ class Types:
             k = fi.cls
             if k is not None:
                 return frozenset([("super", k.qname)])
-        for t in ft:
+        for t in S(ft):
             if t[0] == "clsobj":
                 out.add(("inst", t[1], ()))
             elif t[0] == "func":
@@ -768,7 +798,7 @@ class Types:
                 elif d in ("builtins.dict", "collections.OrderedDict"):
                     src = self.type_of(e.args[0], fi, m) if e.args else EMPTY
                     vals = set()
-                    for s in src:
+                    for s in S(src):
                         if s[0] == "map":
                             vals |= s[1]
                     out.add(("map", frozenset(vals)))
@@ -782,7 +812,7 @@ class Types:
                     out.add(("seq", frozenset([("tuple", (frozenset([("ext", "builtins.int")]), el))])))
                 elif d == "builtins.getattr":
                     if len(e.args) >= 2 and isinstance(e.args[1], ast.Constant) and isinstance(e.args[1].value, str):
-                        for bt in self.type_of(e.args[0], fi, m):
+                        for bt in S(self.type_of(e.args[0], fi, m)):
                             out |= self.attr_type(bt, e.args[1].value, fi)
                 elif d == "builtins.type":
                     pass
@@ -835,15 +865,15 @@ class Types:
     def resolve_call(self, call: ast.Call, fi: Optional[FuncInfo]) -> CallTargets:
         k = id(call)
         if k in self._call_memo:
-            return self._call_memo[k]
+            return self._call_memo[k][1]
         res = CallTargets()
-        self._call_memo[k] = res
+        self._call_memo[k] = (call, res)
         m = fi.module if fi else None
         ft = self.type_of(call.func, fi, m)
         if isinstance(call.func, ast.Name) and call.func.id == "super":
             res.ext.append("builtins.super")
             return res
-        for t in ft:
+        for t in S(ft):
             self._targets_of_type(t, res, call, fi)
         if not (res.repo or res.ctor or res.ext):
             if isinstance(call.func, ast.Attribute):
@@ -912,7 +942,7 @@ class Types:
         out: List[FuncInfo] = []
         bt = self.type_of(node.value, fi)
         known = False
-        for t in bt:
+        for t in S(bt):
             if t[0] in ("inst", "super"):
                 known = True
                 c = self.p.classes.get(t[1])
